@@ -318,6 +318,27 @@ class H(Harness):
         case['vacc'] = [n for n in case['graph']['nodes'] if rnd.random() < 0.6]
         # histories on the same objects: an earlier whole run with other random choices, or one abandoned inside set-up
         case['earlier'] = rnd.choice([None, None, None, None, 'run', 'run', 'abandoned'])
+        # components that OVERRIDE the documented atEquilibrium() hook with a criterion of their own (at equilibrium from
+        # `eq_after` on, or never), unrelated to any maximum time: the sequence must keep consulting them after the largest
+        # maximum time.  The times asked about straddle the largest maximum time and every such threshold.
+        own = []
+        for l in leaves:
+            if l['type'] == 'probe' and rnd.random() < 0.5:
+                l['eq_after'] = rnd.choice([0.0, 1.0, 1.75, 2.5, 3.25, 3.75, 4.5, 6.0, 6.0, 'never'])
+                own.append(l['eq_after'])
+        if own:
+            def floors(node):
+                if 'leaf' in node:
+                    return []
+                kids = node['seq'] if 'seq' in node else [c for (_, c) in node['named']]
+                return ([node['sub']['floor']] if 'sub' in node else []) + [f for c in kids for f in floors(c)]
+            mm = max([top_maxtime if top_maxtime is not None else l['maxtime'] for l in leaves] + floors(case['tree']))
+            extra = {mm, mm + 0.25, mm + 1.0, 20000.0}
+            for ea in own:
+                if ea != 'never':
+                    extra |= {ea, ea + 0.25}
+            extra |= {x - 0.25 for x in extra if x >= 0.25}
+            case['equil_times'] = sorted(set(case['equil_times']) | extra)
         return case
 
     # ------------------------------------------------------------- execution
@@ -367,6 +388,15 @@ class H(Harness):
                 rc.update(self.res)
                 return rc
 
+        class OwnEquilibrium(Probe):
+            """overrides the documented hook: at equilibrium from `eq_after` on (or never), whatever the maximum time"""
+            def __init__(self, name, requests, res, eq_after):
+                super().__init__(name, requests, res)
+                self.eq_after = eq_after
+
+            def atEquilibrium(self, t):
+                return False if self.eq_after == 'never' else t >= self.eq_after
+
         objs = {}
 
         def mk(node):
@@ -382,6 +412,8 @@ class H(Harness):
                     p = ep.NetworkStatistics()
                 elif ty == 'script':
                     p = kscript.ScriptProcess(l['pi'], case['table'], rec)
+                elif 'eq_after' in l:
+                    p = OwnEquilibrium(l['inst'], l['requests'], l['results'], l['eq_after'])
                 else:
                     p = Probe(l['inst'], l['requests'], l['results'])
                 if case['top_maxtime'] is None:
@@ -552,6 +584,9 @@ class H(Harness):
             posted = sorted((new[3][k][2], new[3][k][0], new[3][k][1]) for k in new[3] if k not in old[3])
             evrec = {'t': t, 'leaf': i, 'name': name, 'fn': fn, 'attrs': ch, 'loci': chl, 'topo_same': old[2] == new[2],
                      'e': e, 'posted': posted}
+            if fn == 'observe':
+                # what there was to observe: the size of every locus of the simulation under its registry key
+                evrec['sizes'] = [[n, len(x)] for n, x in new[1].items()]
             if fn == 'infect' and i in obs['statevars'] and isinstance(e, tuple):
                 # the instance's OWN occupied flag on the edge it has just transmitted over
                 cvar0, ovar0 = obs['statevars'][i][0], obs['statevars'][i][1]
@@ -578,6 +613,25 @@ class H(Harness):
             obs['leaf_results'] = {l['id']: list(objs[l['id']].results().items()) for l in leaves}
         dyn.simulationEnded = ended
 
+        # every equilibrium test that the dynamics makes of the top sequence during the run, next to the components' own
+        # answers at that instant (bounded: a component that is never at equilibrium keeps an eventless run going for ever)
+        asked = [0]
+        watching = isinstance(top, ep.ProcessSequence)
+        if watching:
+            seq_equil = top.atEquilibrium
+
+            def watched(t):
+                b = bool(seq_equil(t))
+                ls = [bool(objs[l['id']].atEquilibrium(t)) for l in leaves]
+                asked[0] += 1
+                obs['run_equil_last'] = [t, b, ls]
+                if b and not all(ls) and 'run_equil_bad' not in obs:
+                    obs['run_equil_bad'] = [t, b, ls]
+                if asked[0] > 400:
+                    raise kscript.Budget('run exceeds the harness budget')
+                return b
+            top.atEquilibrium = watched
+
         if case.get('earlier'):
             install(Oracle(seed=case['seed'] + 1))
             last = None
@@ -597,8 +651,10 @@ class H(Harness):
                 if last is not None:
                     del last.setUp
             obs.update({'events': [], 'snaps': [], 'built': False, 'complete': False})
-            for k in ('all', 'names', 'loci', 'loci_for', 'statevars', 'topo0', 'initial_posted', 'results', 'leaf_results'):
+            for k in ('all', 'names', 'loci', 'loci_for', 'statevars', 'topo0', 'initial_posted', 'results', 'leaf_results',
+                      'run_equil_last', 'run_equil_bad'):
                 obs.pop(k, None)
+            asked[0] = 0
             cur.clear()
             fnname.clear()
             entry.clear()
@@ -627,6 +683,8 @@ class H(Harness):
         finally:
             sd.math = saved_math
             kscript.uninstall_draw_recorder()
+            if watching:
+                del top.atEquilibrium
         obs['exception'] = exc
         # pure queries, asked after the run
         obs['maxtime'] = top.maximumTime()
@@ -822,6 +880,29 @@ class H(Harness):
                 v.append({'signature': 'results-keys-not-union', 'detail': {'got': sorted(got), 'expected': sorted(exp)}})
             elif any(repr(got[k]) != repr(exp[k]) for k in exp):
                 v.append({'signature': 'results-later-does-not-win', 'detail': {k: [got[k], exp[k]] for k in exp if repr(got[k]) != repr(exp[k])}})
+            # a Monitor in the sequence: one time series per locus REGISTRY key of the simulation (the decorated names of
+            # named instances: their loci stay separate in what is reported too), one sample per observation, each the
+            # size of that locus when the observation was made
+            for l in leaves:
+                if l['type'] != 'monitor':
+                    continue
+                seen_ = [ev for ev in obs['events'] if ev['leaf'] == l['id'] and ev['fn'] == 'observe']
+                if not seen_:
+                    continue
+                stem = ep.Monitor.TIMESERIES_STEM
+                mine = {k: val for k, val in obs['leaf_results'][l['id']] if k == ep.Monitor.OBSERVATIONS or k.startswith(stem)}
+                expm = {ep.Monitor.OBSERVATIONS: [ev['t'] for ev in seen_]}
+                for n in names:
+                    expm['%s-%s' % (stem, n)] = [dict(ev['sizes']).get(n) for ev in seen_]
+                if mine != expm:
+                    badk = sorted(set(mine) ^ set(expm)) + sorted(k for k in set(mine) & set(expm) if mine[k] != expm[k])
+                    v.append({'signature': 'monitor-series-not-one-per-registered-locus',
+                              'detail': {'leaf': l['id'], 'keys': badk, 'reported': {k: mine.get(k) for k in badk}, 'observed': {k: expm.get(k) for k in badk}}})
+        # the run itself: the dynamics stops on the sequence's word, which must not be given while a component disagrees
+        if obs.get('run_equil_bad'):
+            t_, b_, ls_ = obs['run_equil_bad']
+            v.append({'signature': 'run-found-the-sequence-at-equilibrium-although-a-component-is-not',
+                      'detail': {'t': t_, 'sequence': b_, 'components': dict(zip([l['id'] for l in leaves], ls_))}})
         # maximum time and equilibrium
         lm = obs['leaf_maxtime']
         if case['top_maxtime'] is not None and any(x != case['top_maxtime'] for x in lm.values()):
@@ -870,11 +951,16 @@ class H(Harness):
                     (elem if ev['kind'] == 'elem' else fixed).append(levent('L%d' % ev['locus'], ev['p'], 'ev%d_%d' % (l['pi'], j)))
             elif l['type'] == 'stats':
                 always = '(Some true)'
+            eqafter = 'None'
+            if l.get('eq_after') == 'never':
+                always = '(Some false)'
+            elif 'eq_after' in l:
+                eqafter = '(Some %s)' % L.q(l['eq_after'])
             mt = case['top_maxtime'] if case['top_maxtime'] is not None else l['maxtime']
             return ('(Leaf {| lf_id := %s; lf_inst := %s; lf_elem := %s; lf_fixed := %s; lf_stems := %s; lf_maxtime := %s; '
-                    'lf_always := %s; lf_requests := %s |})') % (
+                    'lf_always := %s; lf_eqafter := %s; lf_requests := %s |})') % (
                 L.nat(l['id']), optstr(l['inst']), L.lst(elem), L.lst(fixed), L.lst(self.expected_stems(l, case), S), L.q(mt),
-                always, L.lst(req, S))
+                always, eqafter, L.lst(req, S))
 
         def tree(node):
             if 'leaf' in node:
